@@ -216,6 +216,12 @@ Definition expected_functions : list string :=
    "get_robust_background_threshold"; "get_ridler_calvard_threshold"; "get_kapur_threshold";
    "get_maximum_correlation_threshold"; "weighted_variance"]%string.
 
+(* the property's seven methods and the implementation each name must run *)
+Definition expected_dispatch : list (string * string) :=
+  [("Otsu", "get_otsu_threshold"); ("MoG", "get_mog_threshold"); ("Background", "get_background_threshold");
+   ("RobustBackground", "get_robust_background_threshold"); ("RidlerCalvard", "get_ridler_calvard_threshold");
+   ("Kapur", "get_kapur_threshold"); ("MCT", "get_maximum_correlation_threshold")]%string.
+
 Definition mem_string (s : string) (l : list string) : bool :=
   existsb (String.eqb s) l.
 
@@ -224,8 +230,9 @@ Definition mem_string (s : string) (l : list string) : bool :=
 Lemma access_crop_first_lemma :
   forallb (fun fa => forallb access_ok (snd fa)) threshold_access = true /\
   map fst threshold_access = expected_functions /\
-  forallb (fun d => mem_string d (map fst threshold_access)) threshold_dispatch = true /\
-  List.length threshold_dispatch = 7%nat.
+  forallb (fun d => mem_string (snd d) (map fst threshold_access)) threshold_dispatch = true /\
+  threshold_dispatch = expected_dispatch /\
+  threshold_dispatch_filters_kwargs = true /\ threshold_dispatch_unknown_raises = true.
 Proof. repeat split; reflexivity. Qed.
 
 (* premise of S4 (repeated calls agree): every random stream of threshold.py / smooth.py / otsu.py is
